@@ -174,8 +174,9 @@ def Ev.value : Ev → SVal
   | .string s => .str s
   | _ => .none
 
-/-- `event in ["boolean", "integer", "double", "number", "string"]` -/
+/-- `event in ["null", "boolean", "integer", "double", "number", "string"]` -/
 def Ev.isPrimitive : Ev → Bool
+  | .null => true
   | .boolean _ => true
   | .number _ => true
   | .string _ => true
@@ -485,16 +486,9 @@ def tookOf (resp : Json) : Except Err (Option PVal) :=
     | some v => .ok (some (.s v.toSVal))
   | _ => .error .typeError
 
-/-- `error_description` sorts the set of `(status, reason)` tuples: comparing `(s, None)` with `(s, "…")`
-    raises TypeError ('<' not supported between NoneType and str); any comparison sort must compare the two
-    tuples of equal status that end up adjacent, so the call raises iff such a pair exists -/
-def descRaises (details : List (Int × Option Str)) : Bool :=
-  details.any fun d => d.2.isNone && details.any fun e => e.1 == d.1 && e.2.isSome
-
-/-- the common tail of both paths: `error_description` may raise, otherwise the stats dict -/
+/-- the common tail of both paths (`error_description` sorts with a total key and cannot raise) -/
 def statsOf (took : Option PVal) (c : Counts) : Except Err BulkStats :=
-  if c.err > 0 && descRaises c.details then .error .typeError
-  else .ok { took := took, success := c.err == 0, successCount := some c.succ, errorCount := c.err, details := c.details }
+  .ok { took := took, success := c.err == 0, successCount := some c.succ, errorCount := c.err, details := c.details }
 
 /-- `BulkIndex.detailed_stats` (the fields the property speaks about) -/
 def detailedStats (resp : Json) : Except Err BulkStats :=
@@ -504,7 +498,6 @@ def detailedStats (resp : Json) : Except Err BulkStats :=
     match countItems true items {} with
     | .error e => .error e
     | .ok c =>
-      if c.err > 0 && descRaises c.details then .error .typeError else
       match tookOf resp with
       | .error e => .error e
       | .ok took => statsOf took c
@@ -776,13 +769,39 @@ def reSearch : Str → Option Str
       | none => reSearch t
     else reSearch t
 
-def lastSort (text : Str) : Except Err (Option Json) :=
+/-- the extractor of the pinned revision (before commit 6007750): regex capture up to the first `]`,
+    then `json.loads` of the capture — kept for the historical witness only -/
+def lastSortPinned (text : Str) : Except Err (Option Json) :=
   match reSearch (sliceFrom text (rfind sortTok text)) with
   | none => .ok none
   | some cap =>
     match jsonLoads cap with
     | .ok v => .ok (some v)
     | .error e => .error e
+
+/-- `\s` of Python's `re` on `str` -/
+def isPySpace (c : Char) : Bool :=
+  let n := c.toNat
+  (decide (9 ≤ n) && decide (n ≤ 13)) || (decide (28 ≤ n) && decide (n ≤ 32)) || n == 133 || n == 160 || n == 5760 ||
+  (decide (8192 ≤ n) && decide (n ≤ 8202)) || n == 8232 || n == 8233 || n == 8239 || n == 8287 || n == 12288
+
+def skipPySpace : Str → Str
+  | [] => []
+  | c :: t => if isPySpace c then skipPySpace t else c :: t
+
+/-- `_get_last_sort`: `rfind('"sort"')`; `re.compile(r'sort":\s*').match(s, i + 1)`; `raw_decode(s, m.end())[0]`
+    (exactly one JSON value is decoded, whatever follows it is ignored) -/
+def lastSort (text : Str) : Except Err (Option Json) :=
+  match rfind sortTok text with
+  | none => .ok none
+  | some i =>
+    let sl := text.drop (i + 1)
+    if isPrefix sortLit sl then
+      let r := skipPySpace (sl.drop 6)
+      match pValue (r.length + 1) r with
+      | .ok (v, _) => .ok (some v)
+      | .error e => .error e
+    else .ok none
 
 /-! ## Extractors and page / hit accounting of `Query` -/
 
